@@ -1,5 +1,8 @@
 import SimbodyProofs.TreeDynAbs
 import SimbodyProofs.TreeDynRefine
+import SimbodyProofs.TreeDynSim
+import SimbodyProofs.TreeDynSimAbi
+import SimbodyProofs.TreeDynSimFwd
 
 /-!
 # C02 — forward and inverse dynamics of trees are exact inverses
@@ -102,5 +105,36 @@ example : AllN (fun n => n.a) (udotA (fun n => n.a) (fun n => n.b - n.Fa) fieldF
       (udotA (fun n => n.a) (fun n => n.b - n.Fa) fieldF) t Ap = 0) (MBT.mk b1 [MBT.mk b1 []]) 0 :=
   rnea_aba_zero _ _ _ _ _ chain_WF
 end example_tree
+
+
+/-! ## simulation: the EXECUTED forward / inverse dynamics compute the twin's quantities at every node
+(see the corresponding section of `SimbodyProofs/C01.lean` for what is and is not covered) -/
+section simulation
+open TreeDyn
+variable {F : Type} [Field F]
+
+/-- executed `calcTreeResidualForces`: at every node the stored residual is the twin's `resid = Hᵀ F − f` (bias `a`,
+`b − F_applied` from the bias table, accelerations = blocks of the given `u̇`), the stored `A_GB` is `accP` -/
+theorem exec_inverseDynamics (f udot : Array F) (t : Tr (Body F × Bias F)) (AP : SV F) :
+    (invRoot f udot t AP).2.2.2
+        = List.ofFn (resid abF fbF fieldF fieldPol (absT (decI f udot) t) ((phiMat t.val.1.l)ᵀ *ᵥ AP.toVec)) ∧
+    (invRoot f udot t AP).2.1.toVec
+        = accP abF fieldPol (absT (decI f udot) t) ((phiMat t.val.1.l)ᵀ *ᵥ AP.toVec) :=
+  ⟨sim_inv_resid f udot t AP, sim_inv_acc f udot t AP⟩
+
+/-- executed `calcTreeAccelerations` (`calcUDotPass1Inward` / `Pass2Outward` on the ABI-annotated tree): at every node `u̇`,
+`A_GB` are the twin's `udotA`, `accP` -/
+theorem exec_forwardDynamics (f udotP : Array F) (tab : Array (Bias F)) (ta : Tr (Body F × Abi F)) (AP : SV F)
+    (hok : AbiOK (exF f tab) ta) (hwf : WF (absT (decA (exF f tab)) ta)) :
+    (fwdDown f udotP tab ta AP).udot
+        = List.ofFn (udotA abF fbF fieldF (absT (decA (exF f tab)) ta) ((phiMat ta.val.1.l)ᵀ *ᵥ AP.toVec)) ∧
+    (fwdDown f udotP tab ta AP).A.toVec
+        = accP abF (udotA abF fbF fieldF) (absT (decA (exF f tab)) ta) ((phiMat ta.val.1.l)ᵀ *ᵥ AP.toVec) :=
+  ⟨(sim_fwd_down f udotP tab ta AP hok hwf).1, (sim_fwd_down f udotP tab ta AP hok hwf).2.1⟩
+
+/-- executed `multiplyBySystemJacobianTranspose`: at every node the stored block is the twin's `JT` -/
+theorem exec_JT (forces : Array (SV F)) (t : Tr (Body F)) :
+    (jtRoot forces t).2.2 = List.ofFn (JT (fun n => n.Fa) (absT (decJ forces) t)) := sim_jt_block forces t
+end simulation
 
 end C02
